@@ -254,6 +254,38 @@ func c02Ops() []c02Op {
 			return true, nil
 		}})
 	}
+	ops = append(ops, c02Op{name: "upstream restarts", do: func(g *c02Rig, st *c02State) (bool, error) {
+		if st.linkDown || st.disabled {
+			return false, nil
+		}
+		// the upstream process goes away (its clients lose their connection), comes back on the same
+		// store file, and the clients reconnect
+		var remotes []*nats.Conn
+		for _, nc := range g.u.Bus.Conns() {
+			if nc.Opts.NoEcho {
+				remotes = append(remotes, nc)
+			}
+		}
+		for _, nc := range remotes {
+			nc.LinkDown()
+		}
+		file, dir, url := g.u.File, g.u.Dir, g.u.URL
+		g.u.Dir = ""
+		bus := g.u.Bus
+		g.u.Store.Stop(nil)
+		g.u.StopKeepBus()
+		in2, err := sh.New(sh.Opts{File: file, NoTemplate: true, URL: url, Mode: nats.Controlled, RootID: "cloudU"})
+		if err != nil {
+			return true, fmt.Errorf("upstream does not come back: %w", err)
+		}
+		in2.Dir = dir
+		_ = bus
+		g.u = in2
+		for _, nc := range remotes {
+			nc.LinkUp()
+		}
+		return true, nil
+	}})
 	ops = append(ops, c02Op{name: "a sync period passes"})
 	return ops
 }
@@ -365,11 +397,11 @@ func c02Body(t *testing.T, depth, devBound int) mc.Body {
 			}
 			// link up through catch-up synchronisation
 			if st.disabled {
-				_ = g.s.do(func() error { _, e := ops[len(ops)-4].do(g, st); return e }, false)
+				_ = g.s.do(func() error { _, e := ops[len(ops)-5].do(g, st); return e }, false)
 				x.Logf("enable sync (end of history)")
 			}
 			if st.linkDown {
-				_ = g.s.do(func() error { _, e := ops[len(ops)-2].do(g, st); return e }, false)
+				_ = g.s.do(func() error { _, e := ops[len(ops)-3].do(g, st); return e }, false)
 				x.Logf("link restored (end of history)")
 			}
 			g.s.choose = false
@@ -420,9 +452,9 @@ func TestC02(t *testing.T) {
 			depth, dev = 4, 1
 		}
 		r.Explore(mc.Config{Name: fmt.Sprintf("histories-d%d-dev%d", depth, dev), Serial: true, SplitDepth: 2, DevBound: dev, StopAfterViolations: 40,
-			Rule: fmt.Sprintf("two real stores linked by the real SyncClient (period 1 s) after an initial catch-up; all histories of %d operations over 19 (point / edge point on a shared node and on the second placement of a mirrored node on a shared node at either side, node creation at either side, delete / undelete at either side, sync disabled = clean outage / re-enabled, link lost abruptly / restored, a sync period passes), %d scheduling deviations; then the link is brought up, 5 periods pass, and the device subtrees (deleted nodes included, every point with all fields) must be identical and hold the newest accepted write per identity", depth, dev)},
+			Rule: fmt.Sprintf("two real stores linked by the real SyncClient (period 1 s) after an initial catch-up; all histories of %d operations over 20 (point / edge point on a shared node and on the second placement of a mirrored node on a shared node at either side, node creation at either side, delete / undelete at either side, sync disabled = clean outage / re-enabled, link lost abruptly / restored, upstream process restarted, a sync period passes), %d scheduling deviations; then the link is brought up, 5 periods pass, and the device subtrees (deleted nodes included, every point with all fields) must be identical and hold the newest accepted write per identity", depth, dev)},
 			c02Body(t, depth, dev))
-		r.Assume("outages: the sync node disabled / re-enabled (clean disconnect) and abrupt loss of the sync client's upstream connection (queued deliveries lost, its publishes buffered and flushed on recovery, Disconnected/Reconnected handlers); a restart of the upstream store process is not modelled")
+		r.Assume("outages: the sync node disabled / re-enabled (clean disconnect) and abrupt loss of the sync client's upstream connection (queued deliveries lost, its publishes buffered and flushed on recovery, Disconnected/Reconnected handlers); an upstream restart = its clients lose the link, the store stops and reopens the same file, the clients reconnect")
 		r.Assume("root edge points of the device node are not compared (the code excludes them from synchronisation)")
 	})
 }
